@@ -436,6 +436,8 @@ def catalog(thorough):
            [ARR[2], U8], [ARR[1], BOOL], [K2, K32]]
     for fs in odd: add(get(SStruct, fs))
     add(get(SStruct, []))                                   # unit struct
+    # zero-sized types whose alignment is > 1 (size gates never fire for them, only the alignment gate does)
+    add(Arr(U32, 0)); add(get(SStruct, [Arr(U64, 0)])); add(get(SStruct, [Arr(U16, 0), UNIT]))
     add(get(SStruct, [U8, U32], "tuple")); add(get(SStruct, [BOOL, U16, K2], "tuple"))
     PP = get(SStruct, [U8, LE16, LE32, Arr(LE64, 2)])       # portable struct
     add(PP); add(get(SStruct, [BE32, BOOL, LEF32])); add(get(SStruct, [BEF64, I8]))
